@@ -30,7 +30,9 @@ RULE = ("constructor maps + history of 4-22 operations on one Workflow: add (9 n
         "disconnect / disconnect_all between children, inputs_map / outputs_map assignments (rename, expose a "
         "connected channel, hide with None incl. several None, duplicate names, names shadowing another default key, "
         "unknown keys, None), value and channel assignment through wf.inputs[...], run with/without keyword "
-        "arguments (cyclic graphs included); ~85% of the operations are biased to be applicable. Non-trivial = the "
+        "arguments (cyclic graphs included), re-adding a REMOVED node object (same or new label), relabelling a "
+        "current child by add_child(child, label=new), replace_child by a fresh or a previously removed node of the "
+        "same kind (only where the replaced child is unconnected and no connected channel is exposed); ~85% of the operations are biased to be applicable. Non-trivial = the "
         "workflow had >=2 children and a map or a connection at some point; distinct = distinct (maps, history)")
 TRUSTED = ["channel identity is observed by an `is` search over every channel object created by the driver",
            "model and implementation observations are compared step by step through a 61-bit polynomial hash "
@@ -149,6 +151,16 @@ class _Sim:
         self.kids = []            # [label, kind]
         self.conns = []           # (ic, il, oc, ol)
         self.maps = [None, None]
+        self.shelf = []           # [label, kind] of removed nodes, newest first
+
+    def take_shelf(self, label):
+        for i, x in enumerate(self.shelf):
+            if x[0] == label:
+                return self.shelf.pop(i)
+        return None
+
+    def exposed_connected(self):
+        return any(self.connected(d, c, l) for d in (0, 1) for _, c, l in self.panel_keys(d))
 
     def labels(self):
         return [k[0] for k in self.kids]
@@ -170,6 +182,10 @@ class _Sim:
             elif not self.connected(d, c, l):
                 out.append((k, c, l))
         return out
+
+
+def _sim_collides(sim):
+    return any(len({k for k, _, _ in sim.panel_keys(d)}) < len(sim.panel_keys(d)) for d in (0, 1))
 
 
 def gen_map(rng, sim, d):
@@ -225,8 +241,12 @@ def gen_case(rng, n_ops, tricky):
         if len(sim.kids) < 2 and not wild and rng.random() < 0.8:
             k = "add"
         else:
-            k = rng.choice(["add"] * 4 + ["rm"] * 2 + ["con"] * 5 + ["dis", "disall"] + ["map"] * 6 + ["set"] * 3
-                           + ["wcon"] + ["run"] * 4)
+            k = rng.choice(["add"] * 4 + ["rm"] * 3 + ["con"] * 5 + ["dis", "disall"] + ["map"] * 6 + ["set"] * 3
+                           + ["wcon"] + ["run"] * 4 + ["readd"] * 3 + ["relabel"] * 2 + ["replace"] * 2)
+            if k == "readd" and not sim.shelf and not wild:
+                k = "rm" if len(sim.kids) > 2 else "add"
+            if k in ("relabel", "replace") and not sim.kids:
+                k = "add"
         if k == "add":
             free = [l for l in labels if l not in sim.labels()]
             lab = rng.choice(labels) if wild or not free else rng.choice(free)
@@ -238,8 +258,46 @@ def gen_case(rng, n_ops, tricky):
             lab = rng.choice(labels) if wild or not sim.kids else rng.choice(sim.labels())
             ops.append(["rm", lab])
             if lab in sim.labels():
+                sim.shelf.insert(0, [x for x in sim.kids if x[0] == lab][0])
                 sim.kids = [x for x in sim.kids if x[0] != lab]
                 sim.conns = [x for x in sim.conns if lab not in (x[0], x[2])]
+        elif k == "readd":
+            sl = rng.choice(labels + ["spare"]) if wild or not sim.shelf else rng.choice(sim.shelf)[0]
+            free = [l for l in labels if l not in sim.labels()]
+            r = rng.random()
+            nl = None if r < 0.3 else (rng.choice(labels) if wild or not free else rng.choice(free))
+            ops.append(["readd", sl, nl])
+            node = next((x for x in sim.shelf if x[0] == sl), None)
+            if node is not None and (nl or sl) not in sim.labels():
+                sim.take_shelf(sl)
+                sim.kids.append([nl or sl, node[1]])
+        elif k == "relabel":
+            cur = rng.choice(labels) if wild else rng.choice(sim.labels())
+            free = [l for l in labels if l not in sim.labels()]
+            new = rng.choice(labels) if wild or not free or rng.random() < 0.1 else rng.choice(free)
+            ops.append(["relabel", cur, new])
+            if cur in sim.labels() and new not in sim.labels():
+                node = [x for x in sim.kids if x[0] == cur][0]
+                sim.kids = [x for x in sim.kids if x[0] != cur] + [[new, node[1]]]
+                ren = lambda z: new if z == cur else z
+                sim.conns = [(ren(a), b, ren(c), e) for a, b, c, e in sim.conns]
+        elif k == "replace":
+            quiet = [x for x in sim.kids if not any(sim.connected(d, x[0], l) for d in (0, 1)
+                                                     for l in (KIN, KOUT)[d][x[1]])]
+            cur = rng.choice(labels) if wild else rng.choice(quiet or sim.kids)[0]
+            node = next((x for x in sim.kids if x[0] == cur), None)
+            same = [x for x in sim.shelf if node is not None and x[1] == node[1]]
+            r = rng.random()
+            src = None if r < 0.5 or (not same and not wild) else (rng.choice(same)[0] if same and not wild
+                                                                    else rng.choice(labels + ["spare"]))
+            ops.append(["replace", cur, src])
+            rep = [None, node[1] if node else 0] if src is None else next((x for x in sim.shelf if x[0] == src), None)
+            if (node is not None and rep is not None and rep[1] == node[1] and node in quiet
+                    and not sim.exposed_connected() and not _sim_collides(sim)):
+                if src is not None:
+                    sim.take_shelf(src)
+                sim.kids = [x for x in sim.kids if x[0] != cur] + [[cur, node[1]]]
+                sim.shelf.insert(0, [src or "spare", node[1]])
         elif k in ("con", "dis"):
             ins, outs = sim.chans(0), sim.chans(1)
             if wild or not ins or not outs:
@@ -346,6 +404,19 @@ def run_impl(case):
         return [[type(e).__name__]]
     wf.recovery = None       # a failed run must not leave a recovery file in the working directory
     reg = []                 # (channel object, id): every channel ever created, looked up by identity
+    shelf = []               # node objects removed from the workflow and kept by the "user", newest first
+    kind_of = {}             # id(node object) -> kind
+
+    def register(node, kind):
+        kind_of[id(node)] = kind
+        for ch in list(node.inputs) + list(node.outputs):
+            reg.append((ch, len(reg)))
+
+    def from_shelf(label):
+        for n in shelf:
+            if n.label == label:
+                return n
+        return None
 
     def cid(ch):
         for o, i in reg:
@@ -370,7 +441,7 @@ def run_impl(case):
             ins = [[l, cid(ch), [cid(c) for c in ch.connections], v(ch.value)] for l, ch in node.inputs.items()]
             outs = [[l, cid(ch), [cid(c) for c in ch.connections], v(ch.value)] for l, ch in node.outputs.items()]
             kids.append([lab, ins, outs])
-        return [kids, mapobs(wf.inputs_map), mapobs(wf.outputs_map)]
+        return [kids, mapobs(wf.inputs_map), mapobs(wf.outputs_map), [n.label for n in shelf]]
 
     def panel(which):
         try:
@@ -393,10 +464,44 @@ def run_impl(case):
         if k == "add":
             node = KINDS[op[1]](label=op[2])
             wf.add_child(node)
-            for ch in list(node.inputs) + list(node.outputs):
-                reg.append((ch, len(reg)))
+            register(node, op[1])
         elif k == "rm":
-            wf.remove_child(op[1])
+            shelf.insert(0, wf.remove_child(op[1]))
+        elif k == "readd":           # the SAME node object comes back, possibly under another label
+            node = from_shelf(op[1])
+            if node is None:
+                return "noref"
+            wf.add_child(node, label=op[2])
+            shelf[:] = [n for n in shelf if n is not node]
+        elif k == "relabel":         # a current child is adopted again under another label
+            if op[1] not in wf.children:
+                return "noref"
+            wf.add_child(wf.children[op[1]], label=op[2])
+        elif k == "replace":
+            if op[1] not in wf.children:
+                return "noref"
+            old = wf.children[op[1]]
+            new = None
+            if op[2] is not None:
+                new = from_shelf(op[2])
+                if new is None:
+                    return "noref"
+            kind = kind_of[id(old)]
+            # outside this region replace_child enters _rebuild_data_io / copies connections (C14)
+            if new is not None and kind_of[id(new)] != kind:
+                return "skip"
+            if any(len(ch.connections) > 0 for ch in list(old.inputs) + list(old.outputs)):
+                return "skip"
+            try:
+                if any(len(ch.connections) > 0 for ch in list(wf.inputs) + list(wf.outputs)):
+                    return "skip"
+            except TypeError:
+                return "skip"
+            if new is None:
+                new = KINDS[kind](label="spare")
+                register(new, kind)
+            wf.replace_child(old, new)
+            shelf[:] = [old] + [n for n in shelf if n is not new]
         elif k in ("con", "dis"):
             i, o = chan(0, op[1], op[2]), chan(1, op[3], op[4])
             if i is None or o is None:
@@ -475,6 +580,12 @@ def op_coq(op):
         return f"OWConnect {cs(op[1])} {cs(op[2])} {cs(op[3])}"
     if k == "run":
         return "ORun " + cl(f"({cs(a)}, {cz(b)})" for a, b in op[1])
+    if k == "readd":
+        return f"OReadd {cs(op[1])} {_ostr(op[2])}"
+    if k == "relabel":
+        return f"ORelabel {cs(op[1])} {cs(op[2])}"
+    if k == "replace":
+        return f"OReplace {cs(op[1])} {_ostr(op[2])}"
     raise ValueError(op)
 
 
